@@ -614,23 +614,18 @@ theorem expLog_finishLoop (g : Graph) (s : State) : (finishLoop g s).expLog = s.
 
 theorem expLog_submitOne (s : State) (x : Proxy) : (submitOne s x).expLog = s.expLog := rfl
 
-theorem expLog_releaseOne (s : State) (x : Proxy) : (releaseOne s x).expLog = s.expLog := rfl
+theorem expLog_releaseSubmitOne (rel : Bool) (s : State) (x : Proxy) :
+    (releaseSubmitOne rel s x).expLog = s.expLog := rfl
 
 theorem expLog_releaseAndSubmit (s : State) : (releaseAndSubmit s).expLog = s.expLog := by
   unfold releaseAndSubmit
-  extract_lets trig s1 s2 pre
+  extract_lets trig s1 pre
   have h1 : s1.expLog = s.expLog := rfl
-  have h2 : s2.expLog = s.expLog := by
-    simp only [s2]
-    split
-    · exact h1
-    · exact foldl_inv (fun st : State => st.expLog = s.expLog) releaseOne
-        (fun st x h => (expLog_releaseOne st x).trans h) _ _ h1
   split
-  · exact h2
-  · show (List.foldl submitOne s2 pre).expLog = s.expLog
-    exact foldl_inv (fun st : State => st.expLog = s.expLog) submitOne
-      (fun st x h => (expLog_submitOne st x).trans h) _ _ h2
+  · exact h1
+  · show (List.foldl (releaseSubmitOne (!s1.paused)) s1 pre).expLog = s.expLog
+    exact foldl_inv (fun st : State => st.expLog = s.expLog) (releaseSubmitOne (!s1.paused))
+      (fun st x h => (expLog_releaseSubmitOne _ st x).trans h) _ _ h1
 
 theorem expLog_setHoldPoint (s : State) (p : Int) : (setHoldPoint s p).expLog = s.expLog := by
   unfold setHoldPoint
